@@ -95,7 +95,15 @@ impl CharScorer {
         window_size: u8,
         #[cfg(feature = "tag-prediction")] tag_ngram_model: Vec<TagNgramModel<String>>,
     ) -> Result<Option<Self>> {
-        if ngram_model.0.is_empty() && dict_model.0.is_empty() || window_size == 0 {
+        // Tag n-grams are scored by this scorer too, so they keep it alive.
+        #[cfg(feature = "tag-prediction")]
+        let no_tag_ngrams = tag_ngram_model
+            .iter()
+            .all(|m| m.0.iter().all(|d| d.weights.is_empty()));
+        #[cfg(not(feature = "tag-prediction"))]
+        let no_tag_ngrams = true;
+        if ngram_model.0.is_empty() && dict_model.0.is_empty() && no_tag_ngrams || window_size == 0
+        {
             return Ok(None);
         }
 
